@@ -268,7 +268,9 @@ def desugared(unit, body, adaptors=False, _cache={}):
                     sink = bld.local(craw['locals'][0]['ty'])
                     entry = _splice_closure(bld, craw, a if ('c' in a) else {'c': (a.get('m'))}, [], [sink, []], call_blk, line)
                     blk = raw['blocks'][bi]
-                    blk['term'] = {'k': 'goto', 't': entry, 'line': line, 'exp': False}
+                    # the body of a loop runs any number of times, possibly never: what is inside the closure dominates nothing behind it
+                    maybe = bld.local('bool')
+                    blk['term'] = {'k': 'switch', 'op': {'c': [maybe, []]}, 'vals': [0], 'tgts': [call_blk, entry], 'line': line, 'exp': False}
                     consumed.append(cp)
                     changed = True
                     break
